@@ -5,6 +5,8 @@ from props import gxcommon as G
 
 def run(tier, seed):
     res = fx_obligations.c17_fx(tier)
+    from props import dynconfirm
+    dynconfirm.apply(res, "C17", "layout")
     # parentheses influence grouping only: `( expression )` returns the inner value itself
     # (a redundant pair of parentheses around ANY operand must not change the tree: every expression method returns the tree
     # the grammar assigns, so that `a ? x : b ? y : z` and `a ? x : (b ? y : z)` are the same tree)
@@ -19,6 +21,8 @@ def run(tier, seed):
         res.add(lexreplay.attach(run_functions(LX.C17_FUNCTIONS, "C17/smt", tier)))
     except ImportError:
         res.assumptions.append("lexer layout contracts (SMT) not built; layout independence rests on the FX lexer-layout-only-state obligations")
+    from props import parensweep
+    res.add(parensweep.obligations(tier))
     from props import ppline
     pl = ppline.obligations(tier)
     for o in pl.obs:
